@@ -51,6 +51,7 @@ EXPLANATION = (
     "client integers is bounded by seq_max; (R6.7) the activation event in get_mailbox is set and removed on every "
     "exit including exceptional ones. Decides these structural clauses, not the behaviour (latency bound, "
     "absence of every lost wake-up under all schedules)."
+    ' R6.6 accepts, for the expansions that are bounded only for non-UID sets, that every caller which may pass uid_cmd true hands over a set that went through clip_sequence_set with the same maximum, and checks that this helper rewrites each range as (low, min(high, max)) or drops it.'
 )
 RULE_TEXT = (
     "obligations are enumerated from the code: one per CFG exit class of command(), per exit of the management "
